@@ -1,12 +1,12 @@
 (* C13 -- witnesses (by vm_compute) where the faithful model does NOT meet the full statement. *)
-Require Import SF.Prelude SF.Value SF.Group SF.GroupVal.
+Require Import SF.Prelude SF.PySlice SF.Value SF.Group SF.GroupVal SF.WindowSpec SF.Window.
 Local Open Scope string_scope.
 
 (* finding C13-str-fallback: an object key column holding 1 and '1' (unorderable -> np.unique raises
    TypeError -> groups are formed on str(x)): ONE group labelled 1 that also contains the row whose
    key is '1'.  The guard repr_inj_on of C13_fallback_exact_when_repr_separates is necessary. *)
 Theorem C13_str_fallback_refuted :
-  exists rows, gres_same (M_frame_group_api 0 (Some (KCell 0)) false true true true rows)
+  exists rows, gres_same (M_frame_group_api 0 (Some (KCell 0)) false true true true false rows)
                          (S_frame_group_api 0 (Some (KCell 0)) rows) = false.
 Proof. exists [(VInt 0, [VInt 1]); (VInt 1, [VStr "1"]); (VInt 2, [VInt 1])]. vm_compute. reflexivity. Qed.
 Print Assumptions C13_str_fallback_refuted.
@@ -20,3 +20,22 @@ Proof.
   intro H. inversion H as [|? ? _ H2]. inversion H2 as [|? ? H3 _]. discriminate H3.
 Qed.
 Print Assumptions C13_transitions_need_sorted_refuted.
+
+(* finding C13-framego-axis1-sort-path: FrameGO.iter_group_items(element key, axis=1) on the sort path
+   (flat axes, non-object row dtype) raises ErrorInitFrame; the property demands the column groups *)
+Theorem C13_framego_axis1_sort_path_refuted :
+  exists rows g, M_frame_group_api 1 (Some (KCell 0)) false true true false true rows = Err "ErrorInitFrame" /\
+                 S_frame_group_api 1 (Some (KCell 0)) rows = Ok g.
+Proof. exists [(VStr "a", [VInt 1]); (VStr "b", [VInt 1]); (VStr "c", [VInt 2])]. eexists. split; vm_compute; reflexivity. Qed.
+Print Assumptions C13_framego_axis1_sort_path_refuted.
+
+(* finding C13-window-array-axis1-empty: Frame.iter_window_array_items(size=1, start_shift=-1, axis=1) on two columns:
+   the third anchor (left edge 2) selects no column, the array extraction raises, the two valid windows are lost *)
+Theorem C13_window_array_axis1_empty_refuted :
+  exists (rows : list (val * list val)) p out,
+    M_windows_frame_array_axis1 rows p = Err "RuntimeError" /\ S_windows rows p = Ok out /\ length out = 2%nat.
+Proof.
+  exists [(VStr "a", [VInt 1; VInt 2]); (VStr "b", [VInt 3; VInt 4])], (mk_wparams 1 1 true 0 (-1) 0). eexists.
+  split; [vm_compute; reflexivity | split; vm_compute; reflexivity].
+Qed.
+Print Assumptions C13_window_array_axis1_empty_refuted.
